@@ -96,7 +96,8 @@ def run(ctx):
         if d is None:
             fails.append({"why": "no DEC_RSP", **case})
             return
-        want_ttl = min(ttl, 3600) if ttl else 300
+        mt = getattr(cr, 'max_ttl_cfg', 3600)
+        want_ttl = min(min(ttl, mt) if ttl else 300, mt)     # encode: 0 -> default, else clamp; decode: cap again
         problems = []
         if d["error_num"] != 0:
             problems.append("error %d %s" % (d["error_num"], d["error_str"]))
@@ -146,6 +147,16 @@ def run(ctx):
     # TTLs, restrictions, identities
     for ttl in (0, 1, 299, 300, 301, 3599, 3600, 3601, 2 ** 31, 2 ** 32 - 1):
         roundtrip(cr, 4, 5, 0, b"ttl", ttl=ttl, kind="ttl")
+    # "every daemon default configuration": the same TTL set on daemons with a small --max-ttl (below the default TTL)
+    for mt in ((100, 1, 299) if ctx.thorough else (100,)):
+        cr2 = credcorr.CredRig(ctx, exe, orc, key=key, tag="c01mt%d" % mt, max_ttl=mt)
+        cr2.max_ttl_cfg = mt
+        if cr2.ok:
+            for ttl in (0, 1, mt - 1 if mt > 1 else 1, mt, mt + 1, 300, 3600, 2 ** 31, 2 ** 32 - 1):
+                roundtrip(cr2, 4, 5, 0, b"ttl under small max", ttl=ttl, kind="ttl-small-max")
+            if cr2.mismatches:
+                mism.extend(cr2.mismatches)
+            cr2.stop()
     for (au, ag, du, dg) in ((ANY, ANY, 7, 8), (7, ANY, 7, 8), (ANY, 8, 7, 8), (7, 8, 7, 8), (0, 0, 0, 0), (2 ** 31, 2 ** 31 + 1, 2 ** 31, 2 ** 31 + 1)):
         roundtrip(cr, 4, 5, 0, b"restricted", au=au, ag=ag, du=du, dg=dg, kind="restriction")
     for (eu, eg) in ((0, 0), (1, 2), (65534, 65535), (65536, 65537), (2 ** 31 - 1, 2 ** 31), (2 ** 32 - 2, 2 ** 32 - 2)):
